@@ -43,7 +43,8 @@ CHECKS['C13'] = ('4.C13', 'For grammars with the state<> rule and rules whose ac
 
 CHECKS['C18'] = ('4.C18', 'The real limit_depth<N>/input_with_depth guard on a recursive rule and the real limit_bytes<N> guard on a rule starting at an arbitrary offset are proved, over symbolic '
                  'sub-rules that observe depth and visible input end and may fail, succeed or throw, to behave as the reference: depth = guarded levels entered, error exactly beyond N, window = '
-                 'min(N, remaining) bytes from the start of the guarded match, counter and input end restored in every outcome.')
+                 'min(N, remaining) bytes from the start of the guarded match, counter and input end restored in every outcome; plus one guarded level of limit_depth<70000> entered from an arbitrary 64-bit counter value '
+                 '(inductive step over the nesting depth).')
 CHECKS['C02'] = ('4.C02', 'Rewind contract of every rule with its own match() (core, convenience, contrib incl. rematch/minus, try_catch, rep_one_min_max, predicates, http chunk matchers): local failure under '
                  'rewind_mode::required restores byte/line/column, look-ahead never moves the cursor, success never moves it backwards — over symbolic sub-rules that leave garbage on failure, without '
                  'actions and with void apply/apply0 actions attached (which shifts the rewinding responsibility into match()).')
@@ -56,7 +57,7 @@ CHECKS['C10'] = ('4.C10', 'Every single-unit rule instantiation (ASCII classes, 
 
 CHECKS['C16'] = ('4.C16', 'The real raw_string (open, close test, until loop, content action) is proved equal to an independent Lua long-bracket scanner on fully symbolic bytes '
                  '(all lengths up to the bound, all start offsets): match iff opening bracket of level k followed by a closing bracket of level k, consumption through the first such close, content span '
-                 'without one leading line ending, other levels ignored, failure without consumption; lazy and eager inputs, three eol policies, custom characters, content rules.')
+                 'without one leading line ending, other levels ignored, failure without consumption; lazy and eager inputs, three eol policies, custom characters, content rules, and an input that grants only the look-ahead a rule requests (buffered-input contract).')
 
 CHECKS['C06'] = ('4.C06', 'For 25 (quick) / 40 (thorough) byte-oriented and UTF-8 rules and small grammars under the five eol policies, on symbolic bytes with symbolic initial byte/line/column, the counters '
                  'of the eager input, lazy position(), the positions seen by control hooks, actions, raise and parse-tree nodes are proved equal to an independent recount of the consumed prefix and '
